@@ -362,70 +362,97 @@ def masked_mlp(ctx):
             from fjvc.interp import find_def
             menv = it.module_env(MQ)
             real_mlp = it.make_function(find_def(menv.tree, "masked_autoregressive_mlp"), menv, f"{MQ}.masked_autoregressive_mlp")
-            got = {}
+            ranks_of = {}
 
             def recording_mlp(in_ranks, hidden_ranks, out_ranks, **kw):
-                got.update(in_ranks=in_ranks, hidden_ranks=hidden_ranks, out_ranks=out_ranks)
-                return real_mlp(in_ranks, hidden_ranks, out_ranks, **kw)
+                res = real_mlp(in_ranks, hidden_ranks, out_ranks, **kw)
+                ranks_of[id(res)] = dict(in_ranks=in_ranks, hidden_ranks=hidden_ranks, out_ranks=out_ranks, keep=res)
+                return res
 
             it.global_overrides[MQ] = {"get_ravelled_pytree_constructor": lambda t, *a, **k: (lambda flat: t, SV(npar)), "masked_autoregressive_mlp": recording_mlp}
             cls = it.repo_class(f"{MQ}.MaskedAutoregressive")
             transformer = Obj(_cls(it, "Transformer"), shape=(), cond_shape=None)
-            tag = f"{'cond' if conditional else 'uncond'},depth={depth}"
+            tag0 = f"{'cond' if conditional else 'uncond'},depth={depth}"
             fnq = f"{MQ}.MaskedAutoregressive.__init__"
             paths = it.explore(lambda: cls("key", transformer=transformer, dim=SV(dim), cond_dim=(SV(cd) if conditional else None), nn_width=SV(width), nn_depth=depth))
-            p = single(paths, ctx, f"C09/MaskedAutoregressive.__init__[{tag}]/struct/straight_line", props, fnq)
-            if p is None:
-                continue
-            mlp = p.value.masked_autoregressive_mlp
-            layers = mlp.layers
-            Where = it.repo_class("flowjax.wrappers.Where")
-            ok = len(layers) == depth + 1 and all(isinstance(l.weight, Obj) and obj_class(l.weight) is Where for l in layers)
-            ctx.oblige(f"C09/masked_autoregressive_mlp[{tag}]/struct/every_weight_is_a_Where_wrapper", bool(ok), [], props, kind="struct", fn=f"{MQ}.masked_autoregressive_mlp",
-                       note="masks live in Where wrappers (applied at every unwrap), boolean masks are not inexact arrays so no optimiser touches them")
-            # arbitrary training: havoc every inexact leaf, then the real unwrap
-            trained, nleaves = havoc_inexact(it, mlp, "Wtrained")
-            unwrap = it.repo_function("flowjax.wrappers.unwrap")
-            pu = it.explore(lambda: unwrap(trained))
-            pu = single(pu, ctx, f"C09/masked_autoregressive_mlp[{tag}]/unwrap/struct/straight_line", props, "flowjax.wrappers.unwrap")
-            if pu is None:
-                continue
-            um = pu.value
-            pre = [dim >= 1, width >= 1, npar >= 1] + ([cd >= 1] if conditional else [])
-            n_in = dim + cd if conditional else dim
-            okr = all(isinstance(got.get(k_), IVec) for k_ in ("in_ranks", "hidden_ranks", "out_ranks"))
-            ctx.oblige(f"C09/MaskedAutoregressive.__init__[{tag}]/struct/rank_vectors", okr, [], props, kind="struct", fn=fnq)
-            if not okr:
-                continue
-            # the ranks the real constructor assigns (hidden ranks are an implementation choice; only the conclusions below are specification)
-            ranks = [got["in_ranks"].f] + [got["hidden_ranks"].f] * depth + [got["out_ranks"].f]
-            sizes = [n_in] + [width] * depth + [dim * npar]
-            idx = [z3.Int(f"u{l}") for l in range(depth + 2)]  # a path: unit idx[l] of layer l
-            rng = [z3.And(idx[l] >= 0, idx[l] < sizes[l]) for l in range(depth + 2)]
-            nonzero = []
-            rp = dict(kind="c09", what="maf", vars={})
-            for l, lin in enumerate(um.layers):
-                Wl = lin.weight
-                okw = isinstance(Wl, MV)
-                ctx.oblige(f"C09/masked_autoregressive_mlp[{tag}]/layer{l}/struct/unwrapped_matrix", okw, [], props, kind="struct", fn=f"{MQ}.masked_autoregressive_mlp")
-                if not okw:
-                    continue
-                o_, i_ = idx[l + 1], idx[l]
-                nz = Wl.f(o_, i_) != 0
-                nonzero.append(nz)
-                last = l == depth
-                allowed = (ranks[l + 1](o_) > ranks[l](i_)) if last else (ranks[l + 1](o_) >= ranks[l](i_))
-                hyp = pre + p.cond + pu.cond + [rng[l], rng[l + 1]] + ([dim >= 2] if (not conditional and depth > 0) else [])
-                ctx.oblige(f"C09/masked_autoregressive_mlp[{tag}]/layer{l}/post/nonzero_weight_respects_ranks", z3.Implies(nz, allowed), hyp, props, fn=f"{MQ}.masked_autoregressive_mlp", replay=rp)
-                ctx.oblige(f"C09/masked_autoregressive_mlp[{tag}]/layer{l}/post/shape", z3.And(Wl.rows == sizes[l + 1], Wl.cols == sizes[l]), hyp, props, fn=f"{MQ}.masked_autoregressive_mlp", replay=rp)
-            if len(nonzero) == depth + 1:
-                # path lemma: a chain of non-zero weights from input unit u0 to output unit u_{d+1}
-                hyp = pre + p.cond + pu.cond + rng + nonzero + ([dim >= 2] if (not conditional and depth > 0) else [])
-                j = idx[-1] / npar  # the dimension whose transformer parameter this output is
-                concl = z3.If(idx[0] < dim, idx[0] < j, z3.BoolVal(True)) if conditional else idx[0] < j
-                ctx.oblige(f"C09/masked_autoregressive_mlp[{tag}]/post/output_j_connected_only_to_inputs_before_j", concl, hyp, props, fn=f"{MQ}.MaskedAutoregressive.__init__", replay=rp)
-                ctx.control(f"C09/masked_autoregressive_mlp[{tag}]/control/strictly_two_before", z3.If(idx[0] < dim, idx[0] + 1 < j, z3.BoolVal(True)), hyp + [dim >= 3], props, fn=f"{MQ}.MaskedAutoregressive.__init__")
-            ctx.oblige(f"C09/masked_autoregressive_mlp[{tag}]/struct/trainable_leaves_found", nleaves >= depth + 1, [], props, kind="struct", fn=f"{MQ}.masked_autoregressive_mlp")
+            rets = [q for q in paths if q.outcome == "return"]
+            # the constructor may branch on static sizes (e.g. a special case for dim == 1): every returning path is checked
+            ctx.oblige(f"C09/MaskedAutoregressive.__init__[{tag0}]/struct/returns", len(rets) >= 1 and len(rets) == len(paths), [], props, kind="applicability", fn=fnq, note=f"outcomes: {[q.outcome for q in paths]}")
+            for pk, p in enumerate(rets):
+                tag = tag0 if len(rets) == 1 else f"{tag0},path{pk}"
+                _masked_path(ctx, it, p, tag, props, MQ, fnq, ranks_of, depth, conditional, dim, cd, width, npar)
+
+
+def _masked_path(ctx, it, p, tag, props, MQ, fnq, ranks_of, depth, conditional, dim, cd, width, npar):
+    mlp = p.value.masked_autoregressive_mlp
+    got = ranks_of.get(id(mlp), {})
+    layers = mlp.layers
+    Where = it.repo_class("flowjax.wrappers.Where")
+    ok = len(layers) == depth + 1 and all(isinstance(l.weight, Obj) and obj_class(l.weight) is Where for l in layers)
+    ctx.oblige(f"C09/masked_autoregressive_mlp[{tag}]/struct/every_weight_is_a_Where_wrapper", bool(ok), [], props, kind="struct", fn=f"{MQ}.masked_autoregressive_mlp",
+               note="masks live in Where wrappers (applied at every unwrap), boolean masks are not inexact arrays so no optimiser touches them")
+    # arbitrary training: havoc every inexact leaf, then the real unwrap
+    trained, nleaves = havoc_inexact(it, mlp, "Wtrained")
+    unwrap = it.repo_function("flowjax.wrappers.unwrap")
+    pu = it.explore(lambda: unwrap(trained))
+    pu = single(pu, ctx, f"C09/masked_autoregressive_mlp[{tag}]/unwrap/struct/straight_line", props, "flowjax.wrappers.unwrap")
+    if pu is None:
+        return
+    um = pu.value
+    pre = [dim >= 1, width >= 1, npar >= 1] + ([cd >= 1] if conditional else [])
+    n_in = dim + cd if conditional else dim
+    okr = all(isinstance(got.get(k_), IVec) for k_ in ("in_ranks", "hidden_ranks", "out_ranks"))
+    ctx.oblige(f"C09/MaskedAutoregressive.__init__[{tag}]/struct/rank_vectors", okr, [], props, kind="applicability", fn=fnq)
+    if not okr:
+        return
+    # the ranks the real constructor assigns (hidden ranks are an implementation choice; only the conclusions below are specification)
+    ranks = [got["in_ranks"].f] + [got["hidden_ranks"].f] * depth + [got["out_ranks"].f]
+    sizes = [n_in] + [width] * depth + [dim * npar]
+    idx = [z3.Int(f"u{l}") for l in range(depth + 2)]  # a path: unit idx[l] of layer l
+    rng = [z3.And(idx[l] >= 0, idx[l] < sizes[l]) for l in range(depth + 2)]
+    nonzero = []
+    rp = dict(kind="c09", what="maf", vars={})
+    dim2 = [dim >= 2] if (not conditional and depth > 0) else []
+    for l, lin in enumerate(um.layers):
+        Wl = lin.weight
+        okw = isinstance(Wl, MV)
+        ctx.oblige(f"C09/masked_autoregressive_mlp[{tag}]/layer{l}/struct/unwrapped_matrix", okw, [], props, kind="struct", fn=f"{MQ}.masked_autoregressive_mlp")
+        if not okw:
+            continue
+        o_, i_ = idx[l + 1], idx[l]
+        nz = Wl.f(o_, i_) != 0
+        nonzero.append(nz)
+        last = l == depth
+        allowed = (ranks[l + 1](o_) > ranks[l](i_)) if last else (ranks[l + 1](o_) >= ranks[l](i_))
+        hyp = pre + p.cond + pu.cond + [rng[l], rng[l + 1]] + dim2
+        ctx.oblige(f"C09/masked_autoregressive_mlp[{tag}]/layer{l}/post/nonzero_weight_respects_ranks", z3.Implies(nz, allowed), hyp, props, fn=f"{MQ}.masked_autoregressive_mlp", replay=rp)
+        ctx.oblige(f"C09/masked_autoregressive_mlp[{tag}]/layer{l}/post/shape", z3.And(Wl.rows == sizes[l + 1], Wl.cols == sizes[l]), hyp, props, fn=f"{MQ}.masked_autoregressive_mlp", replay=rp)
+    if len(nonzero) == depth + 1:
+        # path lemma: a chain of non-zero weights from input unit u0 to output unit u_{d+1}
+        hyp = pre + p.cond + pu.cond + rng + nonzero + dim2
+        j = idx[-1] / npar  # the dimension whose transformer parameter this output is
+        concl = z3.If(idx[0] < dim, idx[0] < j, z3.BoolVal(True)) if conditional else idx[0] < j
+        ctx.oblige(f"C09/masked_autoregressive_mlp[{tag}]/post/output_j_connected_only_to_inputs_before_j", concl, hyp, props, fn=f"{MQ}.MaskedAutoregressive.__init__", replay=rp)
+        ctx.control(f"C09/masked_autoregressive_mlp[{tag}]/control/strictly_two_before", z3.If(idx[0] < dim, idx[0] + 1 < j, z3.BoolVal(True)), hyp + [dim >= 3], props, fn=f"{MQ}.MaskedAutoregressive.__init__")
+    ctx.oblige(f"C09/masked_autoregressive_mlp[{tag}]/struct/trainable_leaves_found", nleaves >= depth + 1, [], props, kind="struct", fn=f"{MQ}.masked_autoregressive_mlp")
+    # ---- no permitted dependency is missing: the masks (= rank comparisons, proved in masks/rank_based_mask) leave a path open
+    #      from every permitted input to every output.  A witness chain through ONE hidden unit index (used in every hidden layer).
+    o_, i_ = idx[-1], idx[0]
+    j = o_ / npar
+
+    def open_chain(h):
+        if depth == 0:
+            return ranks[1](o_) > ranks[0](i_)
+        steps = [ranks[1](h) >= ranks[0](i_)] + [ranks[l + 1](h) >= ranks[l](h) for l in range(1, depth)] + [ranks[depth + 1](o_) > ranks[depth](h)]
+        return z3.And(h >= 0, h < width, *steps)
+
+    cands = [i_, i_ + 1, z3.IntVal(0), width - 1]
+    base = pre + p.cond + [rng[0], rng[-1]]
+    if conditional:
+        ctx.oblige(f"C09/masked_autoregressive_mlp[{tag}]/post/every_output_is_connected_to_every_condition_input", z3.Or(*[open_chain(h) for h in ([z3.IntVal(0)] if depth == 0 else cands)]),
+                   base + [i_ >= dim], props, fn=fnq, replay=rp, note="the transformer parameters of every dimension (also dimension 0) depend freely on the condition")
+    ctx.oblige(f"C09/masked_autoregressive_mlp[{tag}]/post/no_permitted_dependency_missing_when_width_at_least_dim", z3.Or(*[open_chain(h) for h in ([z3.IntVal(0)] if depth == 0 else cands)]),
+               base + [i_ < dim, i_ < j, width >= dim] + dim2, props, fn=fnq, replay=rp, note="parameters of output dimension j see every input i < j when the hidden width is at least the dimension")
 
 
 @family("masks/block_autoregressive_linear", ["C09", "C02", "C04", "C18"])
